@@ -916,8 +916,13 @@ class Interp:
             if spec:
                 raise OutOfSubset('format spec on symbolic string')
             return SStr(v.t)
+        if isinstance(v, (SKey, SInt)) and not spec:
+            from .models import NumText
+            return NumText(v)
         if is_sym(v):
             raise OutOfSubset(f'f-string of symbolic {type(v).__name__}')
+        if not isinstance(v, (str, int, float, bool, type(None), tuple)):
+            raise OutOfSubset(f'f-string of unmodelled {type(v).__name__}')
         return format(v, spec)
 
     def str_(self, v):
@@ -998,11 +1003,21 @@ class Interp:
                 if t is None:
                     raise OutOfSubset('comprehension filter not expressible without forking')
                 cond = interp.and_(cond, t)
-            if kind == 'dict':
-                k = interp.eval(e.key, cenv)
-                v = interp.eval(e.value, cenv)
-                return cond, (k, v)
-            return cond, interp.eval(e.elt, cenv)
+            # the element expression is only evaluated for elements that pass the filter
+            ctx = interp.ctx
+            mark = len(ctx.pc)
+            if isinstance(cond, SBool):
+                ctx.pc.append(cond.t)
+            elif cond is False:
+                ctx.pc.append(z3.BoolVal(False))
+            try:
+                if kind == 'dict':
+                    k = interp.eval(e.key, cenv)
+                    v = interp.eval(e.value, cenv)
+                    return cond, (k, v)
+                return cond, interp.eval(e.elt, cenv)
+            finally:
+                del ctx.pc[mark:]
         return CompSeq(self, it, at, kind)
 
     def ex_ListComp(self, e, env):
